@@ -20,6 +20,7 @@ Missing for the full statement: the event loop, sockets and parsers of the binar
 -/
 import SquidModel.Cache.CollapseOne
 import SquidModel.Cache.CollapseShare
+import SquidModel.Gen.CollapseFlags
 
 namespace SquidModel.C18
 open SquidModel.Cache.Collapse
@@ -28,10 +29,11 @@ open SquidModel.Cache.Collapse
 fresh, and the run is calm (no fetch failure, abort, eviction or purge; client departures that do not abort the fetch), then after
 any number of requests, in any interleaving with the origin's header, body and end events and the store-client callbacks, at most
 one entry was ever created, i.e. at most one fetch was started, and every transaction is attached to that entry. -/
-theorem one_fetch_when_cacheable (O : Nat → Resp) (hO : Cacheable O) (as : List Action) (hc : CalmRun O (State.init true) as) :
-    (run O (State.init true) as).nextE ≤ 1 ∧
-    ∀ c cl, (run O (State.init true) as).clients c = some cl → cl.entry = 0 := by
-  rcases zero_run hO zero_init as hc with hz | ho
+theorem one_fetch_when_cacheable (O : Nat → Resp) (rf : Bool) (hO : Cacheable O) (as : List Action)
+    (hc : CalmRun O (State.init true rf) as) :
+    (run O (State.init true rf) as).nextE ≤ 1 ∧
+    ∀ c cl, (run O (State.init true rf) as).clients c = some cl → cl.entry = 0 := by
+  rcases zero_run hO (zero_init rf) as hc with hz | ho
   · refine ⟨by rw [hz.nextE]; omega, ?_⟩
     intro c cl hcl
     rw [hz.cli c] at hcl
@@ -43,11 +45,11 @@ theorem one_fetch_when_cacheable (O : Nat → Resp) (hO : Cacheable O) (as : Lis
 /-- Bytes from one fetch: in any run, a client that was sent a reply header was sent the header stored in its entry, and the body
 bytes it was sent so far are a prefix of that entry's bytes; unless the entry is a local error page, the header is the one the
 origin sent for that entry's fetch and the bytes are a prefix of what the origin sent for it. -/
-theorem served_bytes_from_one_fetch (O : Nat → Resp) (cf : Bool) (as : List Action) (c : Nat) (cl : Client) (h : Hdr)
-    (hcl : (run O (State.init cf) as).clients c = some cl) (hg : cl.gotHdr = some h) :
-    ∃ ent, (run O (State.init cf) as).entries cl.entry = some ent ∧ ent.hdr = some h ∧ cl.out = ent.body.take cl.out.length ∧
+theorem served_bytes_from_one_fetch (O : Nat → Resp) (cf rf : Bool) (as : List Action) (c : Nat) (cl : Client) (h : Hdr)
+    (hcl : (run O (State.init cf rf) as).clients c = some cl) (hg : cl.gotHdr = some h) :
+    ∃ ent, (run O (State.init cf rf) as).entries cl.entry = some ent ∧ ent.hdr = some h ∧ cl.out = ent.body.take cl.out.length ∧
       (ent.isErr = false → h = (O cl.entry).hdr ∧ cl.out = (O cl.entry).sent.take cl.out.length) := by
-  have hi := inv_run (inv_init O cf) as
+  have hi := inv_run (inv_init O cf rf) as
   obtain ⟨ent, he, hh, hp⟩ := (hi.cli c cl hcl).g1 h hg
   refine ⟨ent, he, hh, hp, ?_⟩
   intro hne
@@ -65,19 +67,19 @@ theorem served_bytes_from_one_fetch (O : Nat → Resp) (cf : Bool) (as : List Ac
 
 /-- Never truncated-as-complete: in any run, a client whose stream ended with `STREAM_COMPLETE` was sent either a locally generated
 error page or exactly the complete body of the origin's response to its entry's fetch, and that response was complete. -/
-theorem complete_means_whole_response_or_error_page (O : Nat → Resp) (cf : Bool) (as : List Action) (c : Nat) (cl : Client)
-    (hcl : (run O (State.init cf) as).clients c = some cl) (hv : cl.verdict = some .complete) :
-    ∃ ent, (run O (State.init cf) as).entries cl.entry = some ent ∧
+theorem complete_means_whole_response_or_error_page (O : Nat → Resp) (cf rf : Bool) (as : List Action) (c : Nat) (cl : Client)
+    (hcl : (run O (State.init cf rf) as).clients c = some cl) (hv : cl.verdict = some .complete) :
+    ∃ ent, (run O (State.init cf rf) as).entries cl.entry = some ent ∧
       (ent.isErr = true ∨ (cl.out = (O cl.entry).wholeBody ∧ (O cl.entry).proper = true)) :=
-  ((inv_run (inv_init O cf) as).cli c cl hcl).cp hv
+  ((inv_run (inv_init O cf rf) as).cli c cl hcl).cp hv
 
 /-- Identical copies: two clients served completely from the same (non-error) entry were sent the same bytes and the same header. -/
-theorem identical_copies (O : Nat → Resp) (cf : Bool) (as : List Action) (c1 c2 : Nat) (cl1 cl2 : Client)
-    (h1 : (run O (State.init cf) as).clients c1 = some cl1) (h2 : (run O (State.init cf) as).clients c2 = some cl2)
+theorem identical_copies (O : Nat → Resp) (cf rf : Bool) (as : List Action) (c1 c2 : Nat) (cl1 cl2 : Client)
+    (h1 : (run O (State.init cf rf) as).clients c1 = some cl1) (h2 : (run O (State.init cf rf) as).clients c2 = some cl2)
     (he : cl1.entry = cl2.entry) (hv1 : cl1.verdict = some .complete) (hv2 : cl2.verdict = some .complete)
-    (hne : ∀ ent, (run O (State.init cf) as).entries cl1.entry = some ent → ent.isErr = false) :
+    (hne : ∀ ent, (run O (State.init cf rf) as).entries cl1.entry = some ent → ent.isErr = false) :
     cl1.out = cl2.out ∧ ∀ x y, cl1.gotHdr = some x → cl2.gotHdr = some y → x = y := by
-  have hi := inv_run (inv_init O cf) as
+  have hi := inv_run (inv_init O cf rf) as
   obtain ⟨e1, he1, hp1⟩ := (hi.cli c1 cl1 h1).cp hv1
   obtain ⟨e2, he2, hp2⟩ := (hi.cli c2 cl2 h2).cp hv2
   have hn1 := hne e1 he1
@@ -105,12 +107,12 @@ authenticated, ...) or a local error page is never sent to a transaction that fo
 hitting client).  False of the real code: see the counterexample below.  Proved: it can only happen when the entry already carried
 RELEASE_REQUEST at the time its reply header arrived (`relAtHdr`), and never for error pages.
 -/
-theorem unshareable_never_served_to_collapsed_partial (O : Nat → Resp) (cf : Bool) (as : List Action) (c : Nat) (cl : Client) (ent : Entry)
-    (hcl : (run O (State.init cf) as).clients c = some cl) (hh : cl.isHit = true) (hg : cl.gotHdr ≠ none)
-    (he : (run O (State.init cf) as).entries cl.entry = some ent) :
+theorem unshareable_never_served_to_collapsed_partial (O : Nat → Resp) (cf rf : Bool) (as : List Action) (c : Nat) (cl : Client) (ent : Entry)
+    (hcl : (run O (State.init cf rf) as).clients c = some cl) (hh : cl.isHit = true) (hg : cl.gotHdr ≠ none)
+    (he : (run O (State.init cf rf) as).entries cl.entry = some ent) :
     ent.isErr = false ∧ ((O cl.entry).hdr.reuse = .reuseNot → ent.relAtHdr = true) := by
-  have hs := shareInv_run (inv_init O cf) (shareInv_init O cf) as
-  have hi := inv_run (inv_init O cf) as
+  have hs := shareInv_run (inv_init O cf rf) (shareInv_init O cf rf) as
+  have hi := inv_run (inv_init O cf rf) as
   have hnu := hs.hit c cl hcl hh hg ent he
   have hhdr : ent.hdr ≠ none := by
     cases hgh : cl.gotHdr with
@@ -130,6 +132,21 @@ theorem unshareable_never_served_to_collapsed_partial (O : Nat → Resp) (cf : B
     | true => rfl
     | false => exact absurd ⟨hhdr, Or.inr ⟨hr, hx⟩⟩ hnu
 
+/-- In the source variant that looks at the reply before `RELEASE_REQUEST` (`relFirst = false`, notes/fixes/C18-*.diff) the full
+statement holds: a `reuseNot` reply or an error page never reaches a transaction that did not fetch it. -/
+theorem unshareable_never_served_to_collapsed_fixed (O : Nat → Resp) (cf : Bool) (as : List Action) (c : Nat) (cl : Client) (ent : Entry)
+    (hcl : (run O (State.init cf false) as).clients c = some cl) (hh : cl.isHit = true) (hg : cl.gotHdr ≠ none)
+    (he : (run O (State.init cf false) as).entries cl.entry = some ent) :
+    ent.isErr = false ∧ (O cl.entry).hdr.reuse ≠ .reuseNot := by
+  obtain ⟨h1, h2⟩ := unshareable_never_served_to_collapsed_partial O cf false as c cl ent hcl hh hg he
+  refine ⟨h1, ?_⟩
+  intro hr
+  have hs := shareInv_run (inv_init O cf false) (shareInv_init O cf false) as
+  have hfl : (run O (State.init cf false) as).relFirst = false := run_relFirst O _ as
+  have := hs.flag hfl cl.entry ent he
+  rw [h2 hr] at this
+  cases this
+
 /-- the origin of the counterexample: every reply is `reuseNot` (e.g. `Cache-Control: private`) -/
 def privateOrigin : Nat → Resp :=
   fun _ => { hdr := { reuse := .reuseNot, clen := some 1, removes := true, stale := false }, sent := [7], properEnd := true }
@@ -140,11 +157,19 @@ reply to another fetch that calls `httpMaybeRemovePublic`) releases the entry wi
 def privateWitness : List Action :=
   [.request false, .request false, .purge, .replyHeaders 0, .replyData 0 1, .replyEnd 0, .wake 1 0, .wake 1 9]
 
+/-- In the current source (`Gen.CollapseFlags.releasedFirst`) the full statement is false: the collapsed client of the witness run is
+a hit, collapsed, and is sent the complete `reuseNot` reply of the other client's fetch. -/
 theorem released_entry_shares_private_reply_counterexample :
-    (match (run privateOrigin (State.init true) privateWitness).clients 1 with
+    SquidModel.Gen.CollapseFlags.releasedFirst = true →
+    (match (run privateOrigin (State.init true SquidModel.Gen.CollapseFlags.releasedFirst) privateWitness).clients 1 with
      | some cl => cl.isHit && cl.didCollapse && (cl.gotHdr == some (privateOrigin 0).hdr) && (cl.out == [7]) &&
                   (cl.verdict == some Verdict.complete)
      | none => false) = true ∧ (privateOrigin 0).hdr.reuse = Reuse.reuseNot := by
+  decide
+
+/-- the staged source is one of the two variants the model knows -/
+theorem current_variant :
+    SquidModel.Gen.CollapseFlags.releasedFirst = true ∨ SquidModel.Gen.CollapseFlags.releasedFirst = false := by
   decide
 
 -- non-vacuity -----------------------------------------------------------------------------------------------------------------
